@@ -116,11 +116,12 @@ class DLISFile:
         for idx_lf, logical_file in enumerate(self.logical_files):
             yield logical_file.file_header_item.parent
 
-            yield from logical_file._eflr_sets[eflr_types.OriginSet].values()
+            # (a set without objects - left by an add_* call which was refused - has no bytes to be written)
+            yield from (s for s in logical_file._eflr_sets[eflr_types.OriginSet].values() if s.n_items)
 
             for set_type, set_dict in logical_file._eflr_sets.items():
                 if set_type not in (eflr_types.FileHeaderSet, eflr_types.OriginSet):
-                    yield from set_dict.values()
+                    yield from (s for s in set_dict.values() if s.n_items)
 
             yield from logical_file._no_format_frame_data
 
@@ -173,7 +174,8 @@ class DLISFile:
         n = 0
         for idx_lf, logical_file in enumerate(self.logical_files):
             n += 1  # file header
-            n += sum(len(set_dict) for set_dict in logical_file._eflr_sets.values())  # one record per set
+            n += sum(1 for set_dict in logical_file._eflr_sets.values()
+                     for s in set_dict.values() if s.n_items)  # one record per (non-empty) set
             for mfd in multi_frame_data_objects[idx_lf]:
                 n += len(mfd)
             n += len(logical_file._no_format_frame_data)
